@@ -88,8 +88,55 @@ def main_dilation(cases):
     return out
 
 
+def main_padsplit(cases):
+    """[n, h, w, c, b0, b1, h0, h1, w0, w1, c0, c1]: one PAD; the result of split_pad_to_sub_pad: [0] when the operation is
+    left alone, else [1, axis whose padding it keeps, its paddings (8), the paddings of the PAD put in front (8),
+    the extents of the tensor between the two (4)]; and whether the source's paddings constant was left untouched"""
+    import numpy as np
+    from ethosu.vela import model_reader
+    from ethosu.vela.architecture_features import Accelerator, create_default_arch
+    from ethosu.vela.operation import Op
+    from ethosu.vela.tflite_graph_optimiser import split_pad_to_sub_pad
+    arch = create_default_arch(Accelerator.Ethos_U55_128)
+    out = []
+    tmp = tempfile.mkdtemp(prefix="rw_", dir=os.environ.get("VERIF_TMP"))
+    for i, case in enumerate(cases):
+        n, h, w, c = case[:4]
+        pv = [[case[4], case[5]], [case[6], case[7]], [case[8], case[9]], [case[10], case[11]]]
+        net = netgen.Net("padsplit")
+        x = net.input([n, h, w, c], "int8", 0.05, 3)
+        pt = net.tensor([4, 2], "int32", None, None, pv, name="paddings")
+        y = net.tensor([d + a + b for d, (a, b) in zip([n, h, w, c], pv)], "int8", x.scale, x.zp)
+        net.op("PAD", [x, pt], [y], {})
+        net.output(y)
+        path = os.path.join(tmp, "p%d.tflite" % i)
+        open(path, "wb").write(net.build())
+        nng, _ = model_reader.read_model(path, model_reader.ModelReaderOptions())
+        os.remove(path)
+        op = [o for o in nng.subgraphs[0].get_all_ops() if o.type == Op.Pad][0]
+        op.run_on_npu = True
+        src_pad = op.inputs[1]
+        before = np.array(src_pad.values).copy()
+        res = split_pad_to_sub_pad(op, arch, nng)
+        untouched = bool((np.array(src_pad.values) == before).all())
+        prod = res.inputs[0].ops[0] if res.inputs[0].ops else None
+        if prod is None or prod.type != Op.Pad:
+            out.append({"r": [0], "untouched": untouched})
+            continue
+        kept = np.array(res.inputs[1].values).reshape(4, 2)
+        moved = np.array(prod.inputs[1].values).reshape(4, 2)
+        axis = [a for a in range(4) if kept[a].sum() != 0]
+        out.append({"r": [1, axis[0] if len(axis) == 1 else -1] + [int(v) for v in kept.reshape(-1)] + [int(v) for v in moved.reshape(-1)],
+                    "mid": [int(v) for v in res.inputs[0].shape], "untouched": untouched})
+    os.rmdir(tmp)
+    return out
+
+
 def main():
     cases = json.load(open(sys.argv[1]))
+    if len(sys.argv) > 3 and sys.argv[3] == "padsplit":
+        json.dump(main_padsplit(cases), open(sys.argv[2], "w"))
+        return
     if len(sys.argv) > 3 and sys.argv[3] == "dilation":
         json.dump(main_dilation(cases), open(sys.argv[2], "w"))
         return
